@@ -149,6 +149,17 @@ PROPS['C08'] = {
     'trust': ['ASSUMED contract of <f64 as FromStr>::from_str (grammar from the std documentation; stub in kani/scalar_harness.rs)'],
 }
 
+PROPS['C19'] = {
+    'units': [],
+    'extra': ['kengine'],
+    'level': 'model_checking',
+    'claim': 'BOUNDED (Kani/CBMC on the real functions, not a proof; node-level mechanisms only): (1) resolving an already-resolved leaf leaves it untouched - Yaml::parse_representation and parse_representation_recursive on Null / Boolean / Integer / Alias / BadValue leaves, full value ranges (this is where take() must put the node back); (2) from_bare_yaml of Yaml, MarkedYaml and YamlOwned keeps the data of such a leaf; (3) Scalar -> ScalarOwned -> Scalar is the identity on null/bool/int/string; (4) equality and hashing of marked nodes ignore the span. Trees are not covered: a one-element sequence already exceeds what CBMC finishes here.',
+    'technique': 'Kani bounded harnesses on the real macro-generated methods (bounded stand-in; leaf shapes with full value ranges)',
+    'checker_cmd': 'cargo kani -Z function-contracts -Z stubbing --harness c19_...',
+    'not_decided': ['whole documents: that the four node types hold structurally identical data for one input (needs the loader, C07 scope)', 'deferred == eager resolution of Representation nodes (tried; the resolver under CBMC did not finish - it is the subject of the C08 harnesses)', 'containers in parse_representation_recursive (Sequence / Mapping arms): not reachable with CBMC here; the Sequence arm was repaired together with the catch-all arms on the strength of the demonstrated failing input only', 'String leaves (Cow<str>) in the keeps-resolved / from_bare harnesses', 'MarkedYamlOwned / YamlDataOwned variants of parse_representation*'],
+    'trust': ['Kani/CBMC; unwinding bound 12 with unwinding assertions; values are mem::forget-ed at the end of each harness so that the recursive drop glue of Yaml is not explored'],
+}
+
 PROPS['C05'] = {
     'units': ['parser'],
     'level': 'proof',
